@@ -168,9 +168,9 @@ class ExtraNames(Family):
 
 # --------------------------------------------------------------------------- history search
 
-STRINGS_Q = ['x+y', 'x + y', 'X+y', 'f(x)', 'x', '2k', 'x+', 'f(x', '2x(']
+STRINGS_Q = ['x+y', 'x + y', 'X+y', 'f(x)', 'x', '2k', 'x+', 'f(x', '2x(', 'x y', 'x\ty']
 STRINGS_T = STRINGS_Q + ['x+\ty', 'f', 'sin(x)+sin(y)', '(x))', '']
-FULL_V = {'x': 2.0, 'y': 3.0, 'X': 5.0, 'f': 7.0}
+FULL_V = {'x': 2.0, 'y': 3.0, 'X': 5.0, 'f': 7.0, 'xy': 11.0}
 FULL_F = {'f': lambda t: t + 1, 'sin': math.sin}
 FULL_S = {'k': 1000.0}
 MISS_V = {'x': 2.0}
